@@ -44,11 +44,21 @@ pruned branch, a flipped bit of the hash stored in the proof root, level-lift of
 stored hash), proof root turned into an ordinary cell with the same data, expected hash random / one bit flipped; each either
 with the stale proof-root data or with the proof root recomputed (self-consistent forgery).
 Account mutants: claimed state = pruned branch carrying the committed hash / the account cell with one child pruned (level-0 hash = committed, own hash not) / another account's cell / one flipped bit;
+the committed hash wrapped in an exotic cell built from public data alone ('claimed-exotic-wrap', list WRAPS: Merkle proof over a pruned
+branch carrying it / over the partly pruned or the full state, Merkle proof over Merkle proof, Merkle proof / library cell / Merkle update /
+higher-level pruned branches naming it, and ordinary twins);
 address of another account / absent address; the asked account's branch pruned away and "no state" claimed; other block hash; state proof of a different state; header forgery with a forged
 state; wrong number of roots; one of the two roots replaced by the ordinary twin of the proof cell (optionally with the real proof cell kept
 in the bag as a cell no root reaches, right after its twin or as cell 0) or with one bit of its stored hash flipped; any of the generic
 mutations applied to a cell below the block-proof root or the state-proof root, root data kept ('proof-cell-mutation'; in a third of the
 cases the bag stores hashes with every cell and the altered cells carry the honest cells' stored values).
+
+Account dictionaries: 1..6 ids, random / sharing all but 16 bits / base+2i / 'one-bit' (every other id differs from one base id in
+exactly one bit, first and last positions preferred, base also 0, 1, 2^256-1 ...) / 'siblings' (the pair k, k^1 - leaf with an empty
+label directly below a fork on the LAST key bit - plus neighbours in the last three bits or the first).  Sub-check
+account-proof-fork-grid enumerates two accounts differing in exactly one bit for every bit position 0..255 (plus all-zero / all-one
+common parts and a third close account at the ends), each of the two proven: honest (also the returned descriptor's last_trans_lt and
+last_trans_hash are those of the proven leaf), the sibling's address, the sibling's state, an exotic wrap of the hash.
 
 Deliberately NOT asserted
   * rejection of a changed *depth field of the proof root cell itself* (the statement lists hash, data/structure of unpruned
@@ -68,8 +78,10 @@ from harness.ref import refcell as rc, refboc, refbits as rb, refdict
 RULE = ('generic: case = exotic/ordinary DAG spec (normalised to level 0 by wrapping in Merkle proofs), prune selection (node '
         'indexes), construction route (builder / reference-encoded BoC), optional mutation. header: block-shaped root with 4 '
         'references whose third is a Merkle update over (pruned | full | partly pruned) old and new state trees. account: '
-        'hand-encoded ShardStateUnsplit with 1..6 accounts in a HashmapAugE 256, pruned to the path of one account, two-root '
-        'proof BoC. nested: the proof cell as a reference of an ordinary cell that is proven again (1-2 layers, outer pruning '
+        'hand-encoded ShardStateUnsplit with 1..6 accounts in a HashmapAugE 256 (ids random / shared prefix / differing from a base id '
+        'in exactly one bit / sibling pairs k, k^1), pruned to the path of one account, two-root proof BoC; claimed-state mutants '
+        'include exotic cells built from the committed hash alone. account-proof-fork-grid: two accounts differing in one bit, '
+        'every bit position 0..255, each proven (honest + sibling address / sibling state / wrapped hash). nested: the proof cell as a reference of an ordinary cell that is proven again (1-2 layers, outer pruning '
         'below the carried proof -> proof cell of level 1..2), checked inside and outside the outer proof; header cases carry the '
         'block proof the same way in 1 of 4 cases. bag-of-proofs: honest proof + 1..3 variants (ordinary/exotic twins preferred) as '
         'roots of one bag or children of one cell, each judged by itself; trees may hold ordinary cells with the layout of an '
@@ -864,6 +876,55 @@ def build_account_case(case):
     return S, Sp, B, Bp, acc, acc_cells, target
 
 
+WRAPS = ['proof-over-pruned', 'proof-over-pruned-other-depth', 'proof-over-partly-pruned-state', 'proof-over-state',
+         'proof-over-proof-over-pruned-level-2', 'proof-naming-hash-over-proof-over-pruned', 'library-cell', 'update-over-two-pruned',
+         'ordinary-twin-of-proof-over-pruned', 'ordinary-cell-with-the-hash', 'pruned-level-2', 'pruned-mask-3', 'pruned-mask-7',
+         'proof-over-pruned-mask-3', 'proof-over-library-cell']
+
+
+def exotic_wrap(acc, a):
+    """a cell that names the committed state hash H = acc.H(0) without being the state (label: WRAPS[a % len(WRAPS)])"""
+    H, D = acc.H(0), acc.D(0)
+    w = WRAPS[a % len(WRAPS)]
+    d2 = (D + 1 + a // len(WRAPS)) % 1024
+    pb = rc.pruned_raw(1, [H], [D])
+    named = rc.bytes_to_bits(bytes([rc.MPROOF]) + H + D.to_bytes(2, 'big'))     # data of a Merkle proof cell that names H
+    if w == 'proof-over-pruned':
+        return rc.merkle_proof(pb)
+    if w == 'proof-over-pruned-other-depth':
+        return rc.merkle_proof(rc.pruned_raw(1, [H], [d2]))
+    if w == 'proof-over-partly-pruned-state':
+        if not acc.refs:
+            return rc.merkle_proof(pb)
+        j = (a // len(WRAPS)) % len(acc.refs)
+        return rc.merkle_proof(rc.RCell(acc.bits, [rc.pruned_branch_of(r, 1) if i == j or a % 2 else r for i, r in enumerate(acc.refs)], False))
+    if w == 'proof-over-state':
+        return rc.merkle_proof(acc)
+    if w == 'proof-over-proof-over-pruned-level-2':
+        return rc.merkle_proof(rc.merkle_proof(rc.pruned_branch_of(acc, 2)))
+    if w == 'proof-naming-hash-over-proof-over-pruned':
+        return rc.RCell(named, [rc.merkle_proof(pb)], True)
+    if w == 'library-cell':
+        return rc.library_ref(H)
+    if w == 'update-over-two-pruned':
+        return rc.merkle_update(pb, rc.pruned_raw(1, [H], [d2]) if a % 2 else pb)
+    if w == 'ordinary-twin-of-proof-over-pruned':
+        return rc.RCell(named, [pb], False)
+    if w == 'ordinary-cell-with-the-hash':
+        return rc.RCell(rc.bytes_to_bits(H), [], False)
+    if w == 'pruned-level-2':
+        return rc.pruned_raw(2, [H], [D])
+    if w == 'pruned-mask-3':
+        return rc.pruned_raw(3, [H, H], [D, D])
+    if w == 'pruned-mask-7':
+        return rc.pruned_raw(7, [H, H, H], [D, D, D])
+    if w == 'proof-over-pruned-mask-3':
+        return rc.merkle_proof(rc.pruned_raw(3, [H, attacker_hash(('wrap', a))], [D, d2]))
+    if w == 'proof-over-library-cell':
+        return rc.RCell(named, [rc.library_ref(H)], True)
+    raise HarnessError(w)
+
+
 def check_account(case):
     from pytoniq_core.proof.check_proof import check_account_proof
     from pytoniq_core.tl.block import BlockIdExt
@@ -892,6 +953,12 @@ def check_account(case):
         claimed = rc.RCell(acc.bits, [rc.pruned_branch_of(r, lvl) if i == j else r for i, r in enumerate(acc.refs)], False)
         if claimed.repr_hash() == acc.repr_hash():
             raise HarnessError('partly pruned claim has the committed hash')
+    elif kind == 'claimed-exotic-wrap':
+        # the committed hash is public (the proof shows it): any exotic cell built from it ALONE - or from the true state - that
+        # stores / proves / refers to that hash, while its own hash is another one
+        claimed = exotic_wrap(acc, mut['a'])
+        if claimed.repr_hash() == acc.repr_hash():
+            raise HarnessError('wrapped claim has the committed hash')
     elif kind == 'claimed-other-account':
         others = [a for a in case['accounts'] if a['id'] != target['id']]
         if not others:
@@ -999,12 +1066,15 @@ def check_account(case):
                 lt = getattr(res, 'last_trans_lt', None)
                 if lt != target['lt']:
                     return Fail('account/descr-differs', f'last_trans_lt {lt!r} != {target["lt"]}')
+                lth = getattr(res, 'last_trans_hash', None)
+                if lth != attacker_hash(('lth', target['id'])):
+                    return Fail('account/descr-differs/last_trans_hash', f'last_trans_hash {lth!r} is not the one in the leaf of {target["id"]}')
         elif ok:
             return Fail(f'forged-proof-accepted/account/{kind}', f'mutation {mut} accepted (return_account_descr={want_descr})')
     return None
 
 
-ACC_MUTS = ['claimed-partly-pruned', 'claimed-partly-pruned', 'path-pruned-claim-empty', 'path-pruned-claim-empty', 'path-pruned-claim-none', 'claimed-pruned', 'claimed-pruned', 'claimed-raw-pruned', 'claimed-other-account', 'claimed-bitflip', 'claimed-child-changed',
+ACC_MUTS = ['claimed-exotic-wrap', 'claimed-exotic-wrap', 'claimed-exotic-wrap', 'claimed-partly-pruned', 'claimed-partly-pruned', 'path-pruned-claim-empty', 'path-pruned-claim-empty', 'path-pruned-claim-none', 'claimed-pruned', 'claimed-pruned', 'claimed-raw-pruned', 'claimed-other-account', 'claimed-bitflip', 'claimed-child-changed',
             'other-address', 'other-block-hash', 'other-state', 'forged-header', 'forged-header', 'one-root', 'three-roots', 'swapped-roots',
             'proof-root-ordinary', 'proof-root-ordinary', 'proof-root-hash-flip']
 
@@ -1012,9 +1082,25 @@ ACC_MUTS = ['claimed-partly-pruned', 'claimed-partly-pruned', 'path-pruned-claim
 @st.composite
 def _acc_case(draw):
     n = draw(st.integers(1, 6))
-    shape = draw(st.sampled_from(['random', 'shared-prefix', 'adjacent']))
+    shape = draw(st.sampled_from(['random', 'shared-prefix', 'adjacent', 'one-bit', 'one-bit', 'siblings']))
     ids = set()
-    base = draw(st.integers(0, 2 ** 256 - 1))
+    base = draw(st.one_of(st.integers(0, 2 ** 256 - 1), st.integers(0, 2 ** 256 - 1), st.sampled_from([0, 1, 2 ** 256 - 1, 2 ** 256 - 2, 2 ** 255])))
+    if shape == 'one-bit':
+        # designed common prefixes: the other ids differ from `base` in exactly ONE bit (any position, the first and the last
+        # preferred), so the dictionary forks exactly there and the leaf labels have every length 0..255
+        ids.add('%064x' % base)
+        for k in draw(st.lists(st.one_of(st.sampled_from([0, 0, 1, 2, 7, 8, 253, 254, 255, 255]), st.integers(0, 255)), min_size=n - 1, max_size=n - 1,
+                               unique=True)):
+            ids.add('%064x' % (base ^ (1 << k)))
+    elif shape == 'siblings':
+        # the proven account and its sibling differ only in the LOWEST address bit (leaf directly below the last fork, empty
+        # label); further accounts next to them (last two / three bits) or anywhere
+        ids.add('%064x' % base)
+        ids.add('%064x' % (base ^ 1))
+        for j in range(n - 2):
+            ids.add('%064x' % draw(st.one_of(st.sampled_from([base ^ 2, base ^ 3, base ^ 4, base ^ 7, base ^ (1 << 255), base ^ (1 << 255) ^ 1]),
+                                             st.integers(0, 2 ** 256 - 1))))
+        n = len(ids)
     while len(ids) < n:
         if shape == 'random':
             v = draw(st.integers(0, 2 ** 256 - 1))
@@ -1050,9 +1136,18 @@ def classify_account(case):
     if case.get('mut') and case['mut']['kind'] == 'proof-cell-mutation':
         yield f'proof-cell-mutation: {"block" if case["mut"]["a"] % 2 == 0 else "state"} proof, {case["mut"]["m"]["kind"]}' + (
             ', bag stores (the honest) hashes' if case['seqno'] % 3 == 0 else '')
+    if case.get('mut') and case['mut']['kind'] == 'claimed-exotic-wrap':
+        yield 'claimed-state-wrapped: ' + WRAPS[case['mut']['a'] % len(WRAPS)]
     yield f'accounts={len(case["accounts"])}'
     yield 'account-in-proof=' + case['acc_in_proof']
     t = case['accounts'][case['target'] % len(case['accounts'])]
+    for a in case['accounts']:
+        x = int(a['id'], 16) ^ int(t['id'], 16)
+        if x and x & (x - 1) == 0:
+            k = x.bit_length() - 1
+            yield 'another-account-differs-from-the-proven-one-in-exactly-one-bit: ' + (
+                'the lowest (sibling below the last fork)' if k == 0 else 'the highest (fork at the root)' if k == 255 else
+                'bit 1..7' if k < 8 else 'bit 248..254' if k >= 248 else 'bit 8..247')
     yield 'state=' + t['state']
     if t.get('extra'):
         yield 'target-has-extra-currencies (dictionary reference precedes the account reference in its leaf)'
@@ -1060,6 +1155,38 @@ def classify_account(case):
 
 def nt_any(case):
     return True
+
+
+def enum_fork_grid(tier):
+    """designed account sets: two accounts whose ids differ in exactly one bit, for EVERY bit position 0..255 (random common part;
+    for the first / last positions also all-zero and all-one common parts, and a third account that shares all but the last two
+    bits), each of the two proven in turn: honest, the sibling's address with this account's state, the sibling's state with this
+    address, the state named only by an exotic cell"""
+    def acct(v, j):
+        return {'id': '%064x' % v, 'balance': [10 ** 9, 1, 0, 2 ** 64 + 5, 12345678][j % 5] + (j // 5) % 3, 'lt': 1000 + 7 * j,
+                'state': ['uninit', 'active', 'frozen'][j % 3], 'cells': j % 300, 'bits': 8 * j, 'last_paid': 1700000000 + j,
+                'extra': [[7, 1 + j]] if j % 4 == 3 else []}
+    grid = []
+    for k in range(256):
+        bases = [int.from_bytes(attacker_hash(('grid', k)), 'big')]
+        if k in (0, 1, 254, 255):
+            bases += [0, 2 ** 256 - 1]
+        for bi, base in enumerate(bases):
+            ids = {base, base ^ (1 << k)}
+            if (k + bi) % 4 == 1:
+                ids.add(base ^ 2 if k == 0 else base ^ 1)
+            grid.append((k, bi, sorted(ids), base))
+    j = w = 0
+    for k, bi, ids, base in grid:
+        for tid in (base, base ^ (1 << k)):
+            w += 1                                          # the wraps in turn
+            muts = [None, {'kind': 'other-address', 'a': 1 + 2 * ids.index(tid)}, {'kind': 'claimed-other-account', 'a': ids.index(tid)},
+                    {'kind': 'claimed-exotic-wrap', 'a': w}]
+            for mut in (muts if tier != 'quick' or k < 8 or k >= 248 or k % 16 == 0 else muts[:1] + [muts[1 + j % 3]]):
+                j += 1
+                yield {'accounts': [acct(v, j + i) for i, v in enumerate(ids)], 'target': ids.index(tid), 'wc': [0, -1][j % 2], 'global_id': -239,
+                       'seqno': 100 + j, 'utime': 1700000000, 'gen_lt': 10 ** 12 + j, 'acc_in_proof': ['pruned', 'partial', 'full'][j % 3],
+                       'prune_block': bool(j % 2), 'crc': True, 'idx': False, 'mut': mut}
 
 
 SUBCHECKS = [
@@ -1074,6 +1201,8 @@ SUBCHECKS = [
         n=(2000, 50000), shards=(16, 48), note='check_block_header_proof incl. extracted state hash and level-lift forgeries'),
     Sub('account-proof', check_account, strategy=strat_account, classify=classify_account, nontrivial=nt_any,
         n=(1500, 40000), shards=(16, 48), note='check_account_proof on hand-encoded shard states'),
+    Sub('account-proof-fork-grid', check_account, enum=enum_fork_grid, exhaustive=True, classify=classify_account, nontrivial=nt_any,
+        shards=(16, 16), note='check_account_proof: two accounts that differ in exactly one address bit, every bit position, each proven'),
 ]
 
 
